@@ -185,9 +185,18 @@ def load_findings():
 
 
 def findings_for(prop_id):
+    """(finding, property entry) pairs for prop_id.  An entry may list further properties that share
+    the same generator/oracle engine under "also": the entry (quarantine, signatures, replay) then
+    applies to them too."""
     out = []
     for f in load_findings():
-        entry = f.get("properties", {}).get(prop_id)
+        props = f.get("properties", {})
+        entry = props.get(prop_id)
+        if entry is None:
+            for other in props.values():
+                if prop_id in other.get("also", []):
+                    entry = other
+                    break
         if entry is not None:
             out.append((f, entry))
     return out
